@@ -323,8 +323,55 @@ def _alignment(ctx, R0, cfg, g, target, opt, massTau, Taus):
             ctx.probes["rows_outside_optical_altitude_range"] += 1
 
 
-FAMILIES = {"full": scn_full}
-PLAN = {"quick": [("full", 1200, 4)], "thorough": [("full", 6000, 4)]}
+REAL = (("threads", 2), ("threads", 8), ("processes", 3), ("threads", 1))
+
+
+def scn_real(ctx):
+    """Observation, not simulation: compute() under dask's REAL threaded / multi-process
+    schedulers against the synchronous run with the same seed and clock."""
+    import dask
+
+    ch = ctx.ch
+    cfg, desc = draw_config(ch, max_events=60, allow_zero=False)
+    cfg.detector.optical.enable = True  # the schedule only matters for the optical stage
+    desc["optical"] = True
+    s = desc["rng_seed"]
+    T0 = float(ch.draw(4 * 365 * 86400, "clock"))
+    name, nw = REAL[ctx.idx % len(REAL)]  # round-robin over run indices (the index is in the replay file)
+    ctx.describe.update(config=desc, clock=T0, real_scheduler=name, workers=nw)
+    ctx.log(f"real config {desc} clock={T0:.0f} scheduler={name} x{nw}")
+    ctx.probes[f"real_{name}"] += 1
+    st, R0, _ = run_compute(cfg, s, T0)
+    if st == "exc":
+        ctx.probes["nonempty_reference_run_raised"] += 1
+        return
+    c0 = canon(R0)
+
+    def once():
+        compute = sys.modules["nuspacesim.compute"].compute
+        np.random.seed(s)
+        out = sys.stdout
+        sys.stdout = _Null()
+        try:
+            with seams.simulated_clock(lambda: T0), dask.config.set(scheduler=name, num_workers=nw, **{"multiprocessing.initializer": env.child_init}):
+                try:
+                    return _diff(c0, canon(compute(cfg)))
+                except Exception as e:  # noqa: BLE001
+                    return f"raised {type(e).__name__}: {str(e)[:200]}"
+        finally:
+            sys.stdout = out
+
+    d = once()
+    ctx.nontrivial = len(R0) > 1
+    if d:
+        again = sum(1 for _ in range(5) if once())
+        raise Violation("c14.schedule_dependent", f"[real {name} x{nw}] results differ from the synchronous run with the same seed: {d} (observational stage; reproduced in {again} of 5 immediate re-runs)", sig="compute")
+    ctx.log("real verdict=ok")
+
+
+FAMILIES = {"full": scn_full, "real": scn_real}
+OBSERVATIONAL = ("real",)
+PLAN = {"quick": [("full", 1200, 4), ("real", 12, 1)], "thorough": [("full", 40000, 10), ("real", 300, 2)]}
 BUDGET = {"quick": 200, "thorough": 2400}
 
 META = {
